@@ -9,6 +9,7 @@ import (
 	"verifharness/drv/fwd"
 	"verifharness/drv/hb"
 	"verifharness/drv/re"
+	"verifharness/drv/sy"
 	"verifharness/drv/ts"
 )
 
@@ -30,6 +31,8 @@ func main() {
 		os.Exit(ts.Main(os.Args[2:]))
 	case "re":
 		os.Exit(re.Main(os.Args[2:]))
+	case "sy":
+		os.Exit(sy.Main(os.Args[2:]))
 	case "hb":
 		os.Exit(hb.Main(os.Args[2:]))
 	default:
